@@ -55,11 +55,21 @@ type concOp struct {
 	f      func(e *concEnv, b *bundle.Bundle)
 }
 
+var attenuateVariant int64
+
 var concOps = []concOp{
 	{"Bundle.AddTokens", true, func(e *concEnv, b *bundle.Bundle) { b.AddTokens(e.extra) }},
 	{"Bundle.Filter", true, func(e *concEnv, b *bundle.Bundle) { b.Filter(bundle.KeepAll) }},
 	{"Bundle.Attenuate", true, func(e *concEnv, b *bundle.Bundle) {
-		b.Attenuate(&flyio.Organization{ID: 0, Mask: resset.ActionAll})
+		// also the early-exit paths: no caveats to add, nothing to add them to (an empty selection shares the lock)
+		switch atomic.AddInt64(&attenuateVariant, 1) % 3 {
+		case 0:
+			b.Attenuate()
+		case 1:
+			b.Select(bundle.LocationFilter("https://nowhere.example").Predicate()).Attenuate(&flyio.Organization{ID: 0, Mask: resset.ActionAll})
+		default:
+			b.Attenuate(&flyio.Organization{ID: 0, Mask: resset.ActionAll})
+		}
 	}},
 	{"Bundle.Verify", true, func(e *concEnv, b *bundle.Bundle) {
 		b.Verify(context.Background(), bundle.WithKey([]byte("kid"), e.key, nil))
@@ -172,8 +182,14 @@ func famConc(r *Rng, o *Out, tier string) {
 		}
 	}
 	sort.Slice(all, func(i, j int) bool { return all[i].name < all[j].name })
+	hangs := 0
 	for _, a := range all {
 		for _, w := range writers {
+			if hangs >= 5 {
+				// five pairs already never returned (each costs seven watchdog periods): the verdict is in, stop
+				o.emit("(const remaining-pairs-skipped-after-5-hangs)", "remaining-pairs-skipped-after-5-hangs")
+				return
+			}
 			gg, ii, ww := g, iters, wd
 			if hunt[a.name] || hunt[w.name] {
 				gg, ii, ww = 8, 4000, 6*time.Second // hammer the pair the model flagged
@@ -184,6 +200,9 @@ func famConc(r *Rng, o *Out, tier string) {
 			res := runPair(e, a, w, gg, ii, ww)
 			o.count("pair")
 			o.count("res." + strings.SplitN(res, "(", 2)[0])
+			if res == "hang" {
+				hangs++
+			}
 			o.emit(fmt.Sprintf("(conc %s %s)", a.name, w.name), res)
 		}
 	}
